@@ -31,6 +31,7 @@ def check(run):
     run.attempt(datetype, run, p)
     run.attempt(nullg, run, p, kc)
     run.attempt(unknown, run, p)
+    run.attempt(samepath, run, p)
     run.attempt(entry, run, p)
     run.attempt(preset, run, p)
     run.attempt(sameprep, run, p)
@@ -76,7 +77,7 @@ def keys(run, p, kc):
                '%s writes keys %s; constructor accepts %s' % (c.name, sorted(ks) or 'a plain value', sorted(params)), fn=w or init,
                nontrivial=bool(ks))
     base = p.mod('tdda.constraints.base')
-    from ..pyeval import Interp, Unsupported
+    from ..pyeval import Interp, Unsupported, Raised
     I = Interp(p)
 
     def value_of(name):
@@ -98,11 +99,11 @@ def keys(run, p, kc):
                 reader[k.value] = norm(v)
     elif isinstance(fm, ast.DictComp) and len(fm.generators) == 1:
         try:
-            it = I.expr(fm.generators[0].iter, {}, base)
-            for kind in it:
-                # the class is looked up by the name constraint_class(kind) gives
-                reader[kind] = I.call(cc, [kind])
-        except Unsupported as e:
+            # the table itself, evaluated: kind -> class
+            whole = I.expr(fm, {}, base)
+            for kind, k_ in whole.items():
+                reader[kind] = p.classes[k_[1].target].name if isinstance(k_, tuple) and k_[:1] == ('#sym',) and k_[1].target in p.classes else repr(k_)
+        except (Unsupported, Raised, AttributeError, KeyError) as e:
             raise AnalysisError('FIELD_CONSTRAINTS_MAP is not evaluable: %s' % e)
     else:
         raise AnalysisError('FIELD_CONSTRAINTS_MAP has an unexpected form')
@@ -288,6 +289,74 @@ def load_dict(p, d):
         fields[name] = {k: dict(v.attrs) for k, v in cs.items()}
     meta = {k: v for k, v in o.attrs.items() if k != 'fields'}
     return fields, meta, warned, err
+
+
+def load_path(p, text):
+    """DatasetConstraints().load(path) evaluated with the file's text held in memory -> fields as load_dict gives them"""
+    import datetime as dt
+    import json
+    import collections
+    from ..pyeval import Interp, Obj, Unsupported, Raised, pure_sys, FakeFS
+    c = p.cls('DatasetConstraints')
+    fs = FakeFS({'/data/c.tdda': text})
+    warned = []
+
+    def fake_print(*a, **k):
+        warned.append(' '.join(str(x) for x in a))
+    fake_print._pyeval_model = True
+    I = Interp(p)
+    I.safe_modules = {'datetime', 're', 'json', 'collections'}
+    I.extra_names.update({'datetime': dt, 'print': fake_print, 'sys': pure_sys(), 'open': fs.open, 'os': fs.os(), 'json': json})
+    o = Obj(c)
+    err = None
+    try:
+        I.call(c.methods['__init__'], [], selfobj=o)
+        I.call(c.methods['load'], ['/data/c.tdda'], selfobj=o)
+    except Raised as e:
+        err = str(e)
+    except Unsupported as e:
+        raise AnalysisError('DatasetConstraints.load is not evaluable: %s' % e)
+    fields = {}
+    fo = o.attrs.get('fields')
+    for name, fc in (fo.items.items() if fo is not None else ()):
+        cs = fc.attrs.get('constraints')
+        cs = cs.items if hasattr(cs, 'attrs') else cs
+        fields[name] = {k: dict(v.attrs) for k, v in cs.items()}
+    return fields, warned, err
+
+
+def samepath(run, p):
+    """a .tdda file and the dictionary it holds load alike"""
+    import json
+    run.rule('C09-SAMELOAD', 'constraints loaded from a .tdda file are the constraints loaded from the dictionary the file holds: load(path) '
+                             'and initialize_from_dict(json of the same text), both evaluated, give the same fields with the same '
+                             'constraints - for fields whose names begin with # or contain odd characters, for # comment keys and unknown '
+                             'kinds next to constraints, for dates and precisions')
+    f = p.method('DatasetConstraints', 'load')
+    docs = {
+        'plain': {'fields': {'a': {'type': 'int', 'min': 1, 'max': {'value': 7, 'precision': 'closed'}}, 'b': {'type': 'string', 'allowed_values': ['x', '']}}},
+        'odd-field-names': {'fields': {'#CHROM': {'type': 'string', 'min_length': 1}, '# of items': {'type': 'int', 'min': 0}, 'a b': {'type': 'bool'},
+                                       '': {'type': 'int'}}},
+        'comments-and-unknown-kinds': {'fields': {'a': {'type': 'int', '#note': 'why', 'frob': 3, 'max_nulls': 0}}, '#top': 'comment',
+                                       'creation_metadata': {'source': 'x'}},
+        'dates': {'fields': {'d': {'type': 'date', 'min': '2020-01-02', 'max': {'value': '2021-03-04 05:06:07', 'precision': 'closed'}}}},
+    }
+    n = 0
+    for name, d in sorted(docs.items()):
+        text = json.dumps(d, indent=4)
+        via_path, w1, e1 = load_path(p, text)
+        via_dict, _m, w2, e2 = load_dict(p, json.loads(text))
+        n += 1
+        same = via_path == via_dict and e1 == e2
+        diff = ''
+        if not same:
+            only = sorted(set(via_dict) ^ set(via_path))
+            diff = ': fields only one way %s' % only if only else ': %s / %s' % (str(via_path)[:80], str(via_dict)[:80])
+            if e1 != e2:
+                diff = ': from the file %s, from the dictionary %s' % (e1 or 'loads', e2 or 'loads')
+        run.ob('C09-SAMELOAD', '%s::%s::%s' % (f.rel, f.short, name), same,
+               '%s: %d field(s) from the file, %d from the dictionary%s' % (name, len(via_path), len(via_dict), diff), fn=f)
+    run.floor('C09-SAMELOAD', n, 4)
 
 
 def unknown(run, p):
